@@ -414,8 +414,69 @@ func runEncoder(r *Run, id, mode, corr string, p EncProfile, oracle func(EncRec,
 }
 
 func runC04(r *Run) {
-	r.Rule = "corpus (every value kind alone, nasty messages, groups at every position, duplicates, nil attrs, name+caller, custom and unregistered levels) + random records: messages and keys over all byte values (mostly valid UTF-8 with quotes, backslashes, CR/LF, controls, U+2028/9, invalid sequences), every value kind, groups nested <= 4 (thorough <= 8), caller on/off; byte-exact comparison with the model; direct oracle = encoding/json token stream (order preserving) against the expected tree + one-line framing; non-trivial = a byte needing escape or a group; distinct by record"
+	r.Rule = "corpus (every value kind alone, nasty messages, groups at every position, duplicates, nil attrs, name+caller, custom and unregistered levels) + random records: messages and keys over all byte values (mostly valid UTF-8 with quotes, backslashes, CR/LF, controls, U+2028/9, invalid sequences), every value kind, groups nested <= 4 (thorough <= 8), caller on/off; byte-exact comparison with the model; direct oracle = encoding/json token stream (order preserving) against the expected tree + one-line framing; every observed line is also read by the Coq RFC 8259 parser and must give json_of (records are checked to lie in the theorems' domain) and the very tree encoding/json read; non-trivial = a byte needing escape or a group; distinct by record"
 	runEncoder(r, "C04", "json", "Verif.Corr.C04", EncProfile{KeyClass: 2, TextClass: 2, MaxDepth: 4, MaxAttrs: 8}, oracleJSON, 500, 12000)
+	attachGoTrees(r)
+}
+
+// The specification side of the theorems is the Coq parser parse_json.  To tie IT to a reference
+// reader, every case gets the ordered tree encoding/json read from the observed line (None when
+// encoding/json rejects it); Corr/C04.okj demands that parse_json accepts exactly then and
+// delivers the same tree (and, for records in the domain, that this tree is json_of).
+func attachGoTrees(r *Run) {
+	accepted, rejected := 0, 0
+	for i := range r.cases {
+		ec, ok := r.replays[i].(encCase)
+		if !ok {
+			continue
+		}
+		obs, err := strconv.Unquote(ec.Observed)
+		if err != nil {
+			obs = ""
+		}
+		body := []byte(obs)
+		if len(body) > 0 {
+			body = body[:len(body)-1] // Coq: removelast
+		}
+		tree := "None"
+		if n, err := parseJSONTree(body); err == nil {
+			tree = cSome(jnodeCoq(n))
+			accepted++
+		} else {
+			rejected++
+		}
+		r.cases[i] = "(" + r.cases[i] + ", " + tree + ")"
+	}
+	r.Extra["encoding_json_accepted_lines"] = accepted
+	r.Extra["encoding_json_rejected_lines"] = rejected // the blank Print records (one bare newline)
+	r.Coq("Require Import Verif.Model.Base Verif.Model.Mode Verif.Model.Attrs Verif.Model.Json Verif.Corr.Enc Verif.Corr.C04.",
+		"(Enc.ecase * option Json.json)%type", "(okj isp)")
+}
+
+func jnodeCoq(n jnode) string {
+	switch n.Kind {
+	case "null":
+		return "JNull"
+	case "bool":
+		return "(JBool " + cBool(n.B) + ")"
+	case "number":
+		return "(JNum " + cStr(n.S) + ")"
+	case "string":
+		return "(JStr " + cStr(n.S) + ")"
+	case "array":
+		it := make([]string, 0, len(n.Elems))
+		for _, e := range n.Elems {
+			it = append(it, jnodeCoq(e))
+		}
+		return "(JArr " + cList(it) + ")"
+	case "object":
+		it := make([]string, 0, len(n.Members))
+		for _, m := range n.Members {
+			it = append(it, "("+cStr(m.Key)+", "+jnodeCoq(m.Val)+")")
+		}
+		return "(JObj " + cList(it) + ")"
+	}
+	return "JNull"
 }
 
 func replayEnc(id string) func(r *Run, file string) {
